@@ -49,6 +49,8 @@ enum Scenario {
     TwoTimeouts { kind: Kind },
     /// abort the call task at a chosen point of its life
     Cancel { kind: Kind, point: CancelPoint },
+    /// the same AsyncClient scenario with `Cli::call` going through forward_message (all / even tags)
+    WithApi(clients::Api, Box<Scenario>),
 }
 
 #[derive(Clone, Copy, Debug, PartialEq, Eq)]
@@ -93,6 +95,18 @@ fn scenarios(tier: Tier) -> Vec<Scenario> {
     v.push(Scenario::Cancel { kind: Kind::Async, point: CancelPoint::AwaitingWriterLock });
     v.push(Scenario::Cancel { kind: Kind::Async, point: CancelPoint::MidWriteWithQueuedSibling });
     v.push(Scenario::Cancel { kind: Kind::Ws, point: CancelPoint::MidWriteWithQueuedSibling });
+    // the relay API of the AsyncClient on every AsyncClient scenario (appended: earlier indices stay put)
+    let base: Vec<Scenario> = v.clone();
+    for sc in base {
+        let is_async = matches!(
+            &sc,
+            Scenario::Failure { kind: Kind::Async, .. } | Scenario::Timeout { kind: Kind::Async, .. } | Scenario::TwoTimeouts { kind: Kind::Async } | Scenario::Cancel { kind: Kind::Async, .. }
+        );
+        if is_async {
+            v.push(Scenario::WithApi(clients::Api::Forward, Box::new(sc.clone())));
+            v.push(Scenario::WithApi(clients::Api::Mixed, Box::new(sc)));
+        }
+    }
     v
 }
 
@@ -424,7 +438,18 @@ async fn run_cancel(kind: Kind, point: CancelPoint) -> (Bad, u64) {
 }
 
 async fn run_one(sc: &Scenario) -> (Bad, u64) {
+    if let Scenario::WithApi(api, inner) = sc {
+        clients::set_api(*api);
+        let (bad, flags) = run_plain(inner).await;
+        clients::set_api(clients::Api::Call);
+        return (bad.into_iter().map(|(k, w)| (k, format!("{w} [AsyncClient API: {api:?} = forward_message for all / even-tagged calls]"))).collect(), flags);
+    }
+    run_plain(sc).await
+}
+
+async fn run_plain(sc: &Scenario) -> (Bad, u64) {
     match sc {
+        Scenario::WithApi(..) => (vec![("C06:harness".into(), "nested api wrapper".into())], 0),
         Scenario::Failure { kind, inflight, timed, fault } => run_failure(*kind, *inflight, *timed, *fault).await,
         Scenario::Timeout { kind, reply_before_ms, second_in_flight } => run_timeout(*kind, *reply_before_ms, *second_in_flight).await,
         Scenario::TwoTimeouts { kind } => run_two_timeouts(*kind).await,
